@@ -189,3 +189,22 @@ package sctp
 //@   ensures#gap-blocks forall k int :: 0 <= k && k < len(s.gapAckBlocks) ==> q.gapAckBlocks[k].start == s.gapAckBlocks[k].start && q.gapAckBlocks[k].end == s.gapAckBlocks[k].end
 //@   ensures#duplicate-tsns forall k int :: 0 <= k && k < len(s.duplicateTSN) ==> q.duplicateTSN[k] == s.duplicateTSN[k]
 //@   tags C12 C05
+
+// ---- C12: FORWARD-TSN family encoders ----
+
+//@ func chunkIForwardTSNStream.marshal
+//@   ensures#entry result1 == nil && len(result0) == 8 && isNew(result0) && specBE16(result0, 0) == s.identifier &&
+//@      specBE16(result0, 2) == ite(s.unordered, uint16(1), uint16(0)) && specBE32(result0, 4) == s.messageIdentifier
+//@   modifies nothing
+//@   tags C12
+//@   safety C03
+
+//@ func chunkIForwardTSN.check
+//@   ensures#bounded err == nil ==> len(c.streams) <= maxIForwardTSNStreams && !abort
+//@   tags C12
+
+//@ func chunkIForwardTSN.marshal
+//@   loop 1 invariant#layout offset == 4+8*rangeIdx && rangeIdx <= len(c.streams) && len(out) == 4+8*len(c.streams) && len(c.streams) <= maxIForwardTSNStreams && isNew(out)
+//@   ensures#fits-one-chunk result1 == nil ==> len(result0) == 8+8*len(c.streams) && len(result0) <= 65535 && result0[0] == 194
+//@   tags C12
+//@   safety C03
